@@ -7,9 +7,11 @@ Definition footer_size : option N := (Some 8).
 Definition min_file_size : option N := (Some 12).
 
 (* shape of metadata/loader.rs and thrift.rs: is the bounds check present? *)
-Definition footer_len_checked : option bool := (Some false).
-Definition setmap_implemented : option bool := (Some false).
-Definition double_checked : option bool := (Some false).
-Definition vlq_shift_checked : option bool := (Some false).
-Definition fid_add_checked : option bool := (Some false).
-Definition list_len_checked : option bool := (Some false).
+Definition footer_len_checked : option bool := (Some true).
+Definition setmap_implemented : option bool := (Some true).
+Definition double_checked : option bool := (Some true).
+Definition vlq_shift_checked : option bool := (Some true).
+Definition fid_add_checked : option bool := (Some true).
+Definition list_len_checked : option bool := (Some true).
+(* column/page_reader.rs: every `dest.copy_from_slice(src)` of an uncompressed page is guarded by a length test *)
+Definition page_copy_len_checked : option bool := (Some false).
